@@ -13,7 +13,7 @@ CHECKS = {
                 technique="stateful property-based testing (rapid) of the real kernel under a drawn schedule; invariant oracle over per-transaction database snapshots and responses",
                 text="Generated search over workloads and schedules (interleaving, batching, holds across ticks, before/after-commit faults, crash/restart) of the real kernel + coroutines + sqlite store; "
                      "oracle J1–J3 from the statement: no registration row without a pending promise, every registration present when its promise leaves pending becomes exactly one fresh task in that very transaction, "
-                     "and an acknowledged registration that reports 'pending' is actually stored (or already converted). Id pools include ids containing ':' (the separator of the derived registration/task ids). Found F1 and F19 on the original tree (both repaired by fix: commits); F17 (two registrations whose derived ids collide through ':') is a listed known finding. "
+                     "and an acknowledged registration that reports 'pending' is actually stored (or already converted); J5: the stored registration is the one asked for (promise, root, receiver, deadline). Id pools include ids containing ':' (the separator of the derived registration/task ids). Found F1 and F19 on the original tree (both repaired by fix: commits); F17 (two registrations whose derived ids collide through ':') is a listed known finding. "
                      "Exploration is the right level: the property quantifies over interleavings the harness can own completely, but the space is unbounded.",
                 note=SIM_NOTE),
 }
@@ -48,8 +48,8 @@ CHECKS.update({
                 note="Recording plugins stand in for the poll/http transports (those are C18 and C13/C20). JSON field names are matched case-insensitively like Go's decoder (the statement is silent). Receiver data is compared as JSON values."),
     "C12": dict(engine="kernelq", category="exploration", design="§5 C12",
                 technique="stateful property testing (rapid state machine) of the production api/aio queues and system.Tick with a harness-stepped subsystem; plus a goroutine stress run judged after Loop returned",
-                text="(a) deterministic: one goroutine drives submit / burst / tick / complete-one / shutdown on the production internal/api queue, internal/aio completion queue and system.Tick with every size (api queue, completion queue, subsystem queue, coroutine pool, batch sizes) down to 1; oracle: exactly one answer per request at quiescence, door refusals only when the queue can be full (occupancy interval), shutting-down for requests after Shutdown, payload echoed to its own request, Done() reached after Shutdown with everything accepted answered, also when Shutdown meets an idle system; a Tick that does not return within 5 s is a violation (the kernel is the only consumer of its queues); store.Process answers every submission of a batch exactly once, in order, with its own result; the kernel's refusals (shutting down, queues full: errors without a cause) are rendered as responses by every endpoint of both front ends (exhaustive). (b) stress: real clients, echo + sqlite workers (1 ns tx timeout => natural failures), Loop and Shutdown; judged after Loop and all clients returned: no request answered twice or never.",
-                note="(b) samples Go scheduler interleavings (not reproducible; its seed only selects sizes); a run whose clients or Loop do not return in 30 s is classified inconclusive, not a violation. Reading suggests a window between the a.done check in EnqueueSQE and Loop's exit (F16); it was not observed and is therefore not a listed finding."),
+                text="(a) deterministic: one goroutine drives submit / burst / tick / complete-one / shutdown on the production internal/api queue, internal/aio completion queue and system.Tick with every size (api queue, completion queue, subsystem queue, coroutine pool, batch sizes) down to 1; oracle: exactly one answer per request at quiescence, door refusals only when the queue can be full (occupancy interval), shutting-down for requests after Shutdown, payload echoed to its own request, Done() reached after Shutdown with everything accepted answered, also when Shutdown meets an idle system; a Tick that does not return within 5 s is a violation (the kernel is the only consumer of its queues); store.Process answers every submission of a batch exactly once, in order, with its own result; the kernel's refusals (shutting down, queues full: errors without a cause) are rendered as responses by every endpoint of both front ends (exhaustive). (b) stress: real clients, echo + sqlite workers (1 ns tx timeout => natural failures), Loop and Shutdown; judged after Loop and all clients returned: no request answered twice or never; shutdown-race trials (F16, found and repaired); lonely requests: one sequential client on an idle production api + aio + sqlite store (batch size 10) + Loop, each of 2 000 / 20 000 requests answered (nothing but the loop's periodic wake-up rescues a submission left in a partially collected store batch).",
+                note="(b) samples Go scheduler interleavings (not reproducible; its seed only selects sizes); a run whose clients or Loop do not return in 30 s is classified inconclusive, not a violation. The window between the a.done check in EnqueueSQE and Loop's exit (F16) was observed by the shutdown-race trials and repaired in /repo (f84215b)."),
     "C13": dict(engine="proc", category="exploration", design="§5 C13",
                 technique="grammar + dictionary mutation fuzzing of a real server process over HTTP and gRPC, stateful poison-pill scenarios, restart on the same database, automatic bisection of a failing batch to a minimal request list",
                 text="A real `resonate serve` built from the tree. Generated batches of scenarios: valid skeletons of every endpoint of both protocols x one mutation (absent, empty, null, negative, 0, +-2^31, +-2^63, 1e100, wrong type, 64 KiB, hostile dictionary: JSON literals, template syntax, separators, receivers of every shape, URLs, cron oddities, forged/damaged cursors), stateful scenarios that store hostile data and trigger its later processing (routing, time-out, registration conversion + dispatch through the real sender/poll/http plugins incl. http receivers nothing listens on, schedule firing: schedules hostile in one dimension at a time - cron, id template, other fields - or in all, twins with a constant promise id; dictionaries are walked so that a batch of 40-90 scenarios uses distinct entries), status walks: ordinary client behaviour the kernel must refuse (task / lock / promise / schedule / registration refusals) through both protocols; and overload rounds (servers started with an api queue or coroutine pool of 1, bursts of reads over both protocols: every request answered, process alive). After each batch: > 10 background cycles, health check, kill, restart on the same file, cycles, health check. Oracle: process alive and answering, background dispatch still alive (a probe promise routed to a poll listener is delivered after the batch), every request answered, certainly-invalid requests answered 400/InvalidArgument leaving no row, no 5xx for client input. A death or wedge is bisected on fresh servers to a minimal request list within a time budget (rapid's own shrinking is off for this engine). Found and repaired F2, F4, F7, F8, F9, F10, F23 (and F6, F11 through C19/C18).",
